@@ -44,6 +44,7 @@ Arr(ty, rows) == [k |-> "arr", ty |-> ty, rows |-> rows]
 Lst(xs) == [k |-> "list", xs |-> xs]
 Raise(cls, id) == [k |-> "raise", cls |-> cls, id |-> id]
 Unspec == [k |-> "unspec"]
+U(w) == [k |-> "unspec", why |-> w]      \* with the place in the specification that gave up (for coverage statistics)
 
 IsNum(v) == v.k \in {"int", "float", "complex"}
 IsExact(v) == IsNum(v) /\ v.x
